@@ -1,6 +1,7 @@
 package sim
 
 import (
+	"bytes"
 	"errors"
 	"fmt"
 	"math"
@@ -139,6 +140,9 @@ func (w *walkCtx) advValue(it *simdjson.Iter, t simdjson.Type) (*MV, error) {
 		}
 		for {
 			announced := ai.PeekNext()
+			if tg := ai.PeekNextTag(); simdjson.TagToType[tg] != announced {
+				return nil, fmt.Errorf("PeekNextTag says %q, PeekNext says %v (array element #%d)", byte(tg), announced, len(m.Arr))
+			}
 			et := ai.Advance()
 			if et != announced {
 				// PeekNext announces what Advance is about to return
@@ -168,7 +172,17 @@ func (w *walkCtx) advValue(it *simdjson.Iter, t simdjson.Type) (*MV, error) {
 			if err := w.tick(); err != nil {
 				return nil, err
 			}
-			name, et, err := obj.NextElementBytes(&e)
+			// NextElementBytes on even nesting levels, its string twin NextElement on odd ones
+			var name []byte
+			var et simdjson.Type
+			var err error
+			if w.depth%2 == 0 {
+				name, et, err = obj.NextElementBytes(&e)
+			} else {
+				var sname string
+				sname, et, err = obj.NextElement(&e)
+				name = []byte(sname)
+			}
 			if err != nil {
 				return nil, err
 			}
@@ -1214,7 +1228,7 @@ func MarshalRoot(pj *simdjson.ParsedJson) (out []byte, err error) {
 func MarshalRootVia(pj *simdjson.ParsedJson, how int) (out []byte, err error) {
 	err = safely(func() error {
 		it := pj.Iter()
-		switch how {
+		switch how % 3 {
 		case 1:
 			if t := it.Advance(); t != simdjson.TypeRoot {
 				return fmt.Errorf("Advance on a fresh iterator returned %v, not root", t)
@@ -1225,10 +1239,34 @@ func MarshalRootVia(pj *simdjson.ParsedJson, how int) (out []byte, err error) {
 			}
 		}
 		var e error
-		out, e = it.MarshalJSON()
+		out, e = appendMarshal(how/3, it.MarshalJSONBuffer)
 		return e
 	})
 	return
+}
+
+// marshalPrefixes are destinations handed to the MarshalJSONBuffer variants ("An optional buffer can be provided for
+// fewer allocations. Output will be appended to the destination."): none, an empty one with room, and ones that
+// already hold bytes ending in different kinds of characters.
+var marshalPrefixes = [][]byte{nil, make([]byte, 0, 64), []byte("rec="), []byte(`{"a":1}`), []byte("17 "), []byte("x\n"), []byte("[1,"), bytes.Repeat([]byte("p"), 5000)}
+
+// appendMarshal calls a MarshalJSONBuffer method with destination kind pk and returns what it appended; the bytes that
+// were in the destination before must still be there.
+func appendMarshal(pk int, f func(dst []byte) ([]byte, error)) ([]byte, error) {
+	pre := marshalPrefixes[pk%len(marshalPrefixes)]
+	if pre == nil {
+		return f(nil)
+	}
+	dst := make([]byte, len(pre), cap(pre)+len(pre)%7)
+	copy(dst, pre)
+	out, err := f(dst)
+	if err != nil {
+		return nil, err
+	}
+	if len(out) < len(pre) || !bytes.Equal(out[:len(pre)], pre) {
+		return nil, fmt.Errorf("MarshalJSONBuffer did not append to its destination || the %d bytes %s it held are no longer in front of the output %s", len(pre), shortBytes(pre), shortBytes(out))
+	}
+	return append([]byte(nil), out[len(pre):]...), nil
 }
 
 // ---- W-ser -----------------------------------------------------------------------------------
